@@ -50,6 +50,7 @@ var bindDests = []bdestKind{
 	{"*st1", "BPtr (TStruct 1) GNil", ptrTo(st1{A: 9, B: []int{1}})},
 	{"*tagged", "BPtr (TStruct 10) GNil", ptrTo(tagged{Name: "old", Age: 9, skip: 5})},
 	{"*any", "BPtr TIface GNil", ptrTo[any]("old")},
+	{"*flyt.Result", "BPtr (TStruct 12) GNil", ptrTo(flyt.NewResult("old"))},
 	{"**Tok", "BPtr TPtr GNil", ptrTo(&Tok{ID: 77})},
 	{"(*int)(nil)", "BPtrNil (TInt KInt)", func() any { return (*int)(nil) }},
 	{"(*st2)(nil)", "BPtrNil (TStruct 2)", func() any { return (*st2)(nil) }},
@@ -302,7 +303,7 @@ func bindValues() []GV {
 		{T: "map", StrAny: true, ID: 5}, {T: "map", StrAny: true, Nil: true}, {T: "map", ID: 6},
 		{T: "struct", ID: 2, Elems: []GV{gInt("KInt", "1"), gStr(3)}},
 		{T: "struct", ID: 1, Elems: []GV{gInt("KInt", "1"), gSlice("EInt", gInt("KInt", "2"))}},
-		{T: "struct", ID: 10}, {T: "struct", ID: 11},
+		{T: "struct", ID: 10}, {T: "struct", ID: 11}, {T: "struct", ID: 12, Elems: []GV{{T: "bool", B: false}}}, {T: "struct", ID: 12, Elems: []GV{{T: "bool", B: true}}},
 		{T: "ptr", ID: 1}, {T: "ptr", Nil: true},
 		{T: "ptrto", Name: 2, Under: &GV{T: "struct", ID: 2, Elems: []GV{gInt("KInt", "4"), gStr(5)}}},
 		{T: "ptrto", Name: 2, Nil: true, Under: &GV{T: "struct", ID: 2, Elems: []GV{gInt("KInt", "0"), gStr(0)}}},
